@@ -4,6 +4,7 @@ import (
 	"math/big"
 
 	"github.com/aergoio/aergo/v2/contract"
+	"github.com/aergoio/aergo/v2/contract/name"
 	"github.com/aergoio/aergo/v2/fee"
 	"github.com/aergoio/aergo/v2/internal/common"
 	"github.com/aergoio/aergo/v2/state"
@@ -22,15 +23,24 @@ import (
 // ------------------------------------------------------------------------------------------------
 
 const (
-	vfLgSender = iota // A: the tx sender (always exists)
-	vfLgOther         // B: an ordinary second account
-	vfLgBystander     // U: never named by the tx
-	vfLgVault         // aergo.vault (special account used as a plain recipient)
-	vfLgSystem        // aergo.system (custody of stakes)
-	vfLgName          // aergo.name (custody of name fees until an owner is set)
-	vfLgCreated       // the contract id a DEPLOY tx of A creates (filled in per tx)
+	vfLgSender    = iota // A: the tx sender (always exists)
+	vfLgOther            // B: an ordinary second account
+	vfLgBystander        // U: never named by the tx
+	vfLgVault            // aergo.vault (special account used as a plain recipient)
+	vfLgSystem           // aergo.system (custody of stakes)
+	vfLgName             // aergo.name (custody of name fees until an owner is set)
+	vfLgCreated          // the contract id a DEPLOY tx of A creates (filled in per tx)
 	vfLgN
 )
+
+// vfLgNameEntry: one entry of the name registry that an EARLIER block committed (pre-state of the step).
+type vfLgNameEntry struct {
+	name        string
+	owner, dest int // account indices
+}
+
+// vfLgNames is read by vfLgWorld: the registry entries to commit into the storage trie of aergo.name.
+var vfLgNames []vfLgNameEntry
 
 type vfLedger struct {
 	bs      *state.BlockState
@@ -145,6 +155,22 @@ func vfLgWorld(otherKind int, gasPrice *big.Int) *vfLedger {
 		if i == vfLgOther && otherKind == 2 {
 			st.CodeHash = common.Hasher([]byte("vf-code"))
 		}
+		if i == vfLgName && len(vfLgNames) > 0 {
+			// the registry entries were written and committed by an earlier block: real registerOwner, real storage trie
+			// update and staging (statedb.VFCommitStorage); the account state carries the resulting storage root
+			cs, err := statedb.OpenContractState(w.ids[i], st, sdb)
+			if err != nil {
+				vf.Fail("harness-setup")
+			}
+			for _, e := range vfLgNames {
+				if err := name.VFRegister(cs, []byte(e.name), w.ids[e.owner], w.ids[e.dest]); err != nil {
+					vf.Fail("harness-setup")
+				}
+			}
+			if err := statedb.VFCommitStorage(cs); err != nil {
+				vf.Fail("harness-setup")
+			}
+		}
 		if err := sdb.PutState(types.ToAccountID(w.ids[i]), st); err != nil {
 			vf.Fail("harness-setup")
 		}
@@ -181,12 +207,12 @@ func vfLgPick(name string, mask int, n int) int {
 // vfLgTx runs one transaction through the real NewTxExecutor closure (Snapshot -> executeTx -> Rollback on error)
 // and asserts the obligations selected by mode (1 = C01.a conservation, 2 = C03.a atomicity).
 func vfLgTx(mode int, obC01, obC03, rp string) {
-	verMask := vf.Param("verMask", 0x1c)  // bit v = hardfork version v
-	typMask := vf.Param("typMask", 0x03)  // bit i = vfLgTxTypes[i]
-	rcvMask := vf.Param("rcvMask", 0x1f)  // recipient shapes, see below
-	feeMask := vf.Param("feeMask", 0x01)  // bit0 = fees on (public), bit1 = zero-fee network
-	lenMask := vf.Param("lenMask", 0x0f)  // payload length representatives
-	priceSel := vf.Param("priceMode", 0)  // 0 = symbolic gas price, k>0 = concrete representative k
+	verMask := vf.Param("verMask", 0x1c) // bit v = hardfork version v
+	typMask := vf.Param("typMask", 0x03) // bit i = vfLgTxTypes[i]
+	rcvMask := vf.Param("rcvMask", 0x1f) // recipient shapes, see below
+	feeMask := vf.Param("feeMask", 0x01) // bit0 = fees on (public), bit1 = zero-fee network
+	lenMask := vf.Param("lenMask", 0x0f) // payload length representatives
+	priceSel := vf.Param("priceMode", 0) // 0 = symbolic gas price, k>0 = concrete representative k
 	ver := int32(vfLgPick("ver", verMask, 6))
 	typ := vfLgTxTypes[vfLgPick("type", typMask, len(vfLgTxTypes))]
 	zeroFee := vfLgPick("feeMode", feeMask, 2) == 1
